@@ -16,7 +16,7 @@ COMPOUND_OPS = {"+=": "add", "-=": "sub", "*=": "mul", "/=": "div", "%=": "mod",
                 "^=": "bitwise_xor", "<<=": "bitwise_lshift", ">>=": "bitwise_rshift"}
 
 
-METHOD_OPS = {"load_aligned", "load_unaligned", "store_aligned", "store_unaligned", "get"}
+METHOD_OPS = {"load_aligned", "load_unaligned", "store_aligned", "store_unaligned", "get", "real", "imag"}
 STATIC_METHODS = {"load_aligned", "load_unaligned"}
 
 
